@@ -7,12 +7,6 @@ Open Scope nat_scope.
 Lemma plen_ccsds_pos h : 7 <= plen_ccsds h.
 Proof. unfold plen_ccsds. lia. Qed.
 
-Lemma bits_of_bytes_length l : length (bits_of_bytes l) = 8 * length l.
-Proof. unfold bits_of_bytes. induction l as [|b t IH]; [reflexivity|]. cbn [map concat length]. rewrite app_length, bits_length, IH. lia. Qed.
-
-Lemma bits_of_bytes_app a b : bits_of_bytes (a ++ b) = bits_of_bytes a ++ bits_of_bytes b.
-Proof. unfold bits_of_bytes. now rewrite map_app, concat_app. Qed.
-
 Lemma spec_int_prefix A B p n : (0 <= p)%Z -> (0 <= n)%Z -> (p + n <= 8 * zlen A)%Z ->
   spec_int (A ++ B) p n = spec_int A p n.
 Proof.
